@@ -259,16 +259,23 @@ type pointResult struct {
 	crashed   bool
 	crashKind string // stack-overflow | out-of-memory | signal:<name> | exit:<code>
 	during    string // entry point that was running
-	hung      bool
+	hung      bool // CPU-time horizon exceeded
+	starved   bool // wall-clock cap hit without reaching the CPU-time horizon: overloaded machine, no verdict
 	tail      string
 	wall      time.Duration
 }
 
 var maxWorkerAlloc atomic.Uint64
 
+var overLinear sync.Map // series -> largest point over the linear allocation budget
+
+// The horizon is measured in CPU seconds of the worker (ulimit -t → SIGKILL by the kernel), so that an
+// overloaded machine cannot turn a slow worker into a "hang". The wall-clock cap is only a
+// last resort; hitting it gives no verdict (the run is marked incomplete).
 const (
 	workerMemKB = 4 * 1024 * 1024
-	horizon     = 60 * time.Second
+	horizonCPU  = 60 // seconds
+	wallCapMult = 10
 )
 
 func workerBin() string {
@@ -279,10 +286,10 @@ func workerBin() string {
 	return b
 }
 
-func runWorkerOnce(s seriesT, n string, limit time.Duration) pointResult {
-	ctx, cancel := context.WithTimeout(context.Background(), limit)
+func runWorkerOnce(s seriesT, n string, cpuSec int) pointResult {
+	ctx, cancel := context.WithTimeout(context.Background(), time.Duration(cpuSec*wallCapMult)*time.Second)
 	defer cancel()
-	cmd := exec.CommandContext(ctx, "bash", "-c", fmt.Sprintf("ulimit -v %d; exec \"$@\"", workerMemKB), "--",
+	cmd := exec.CommandContext(ctx, "bash", "-c", fmt.Sprintf("ulimit -v %d; ulimit -t %d; exec \"$@\"", workerMemKB, cpuSec), "--",
 		workerBin(), "-test.run", "^TestWorker$", "-test.count=1", "-test.timeout", "0")
 	var env []string
 	for _, kv := range os.Environ() {
@@ -323,15 +330,23 @@ func runWorkerOnce(s seriesT, n string, limit time.Duration) pointResult {
 	}
 	pr.tail = text
 	if ctx.Err() == context.DeadlineExceeded {
-		pr.hung = true
+		pr.starved = true
 		return pr
 	}
 	if err == nil {
 		return pr
 	}
+	var ee *exec.ExitError
+	if errors.As(err, &ee) {
+		if ws, ok := ee.Sys().(syscall.WaitStatus); ok && ws.Signaled() && (ws.Signal() == syscall.SIGKILL || ws.Signal() == syscall.SIGXCPU) {
+			// the kernel enforces RLIMIT_CPU (the Go runtime ignores SIGXCPU, so it is the
+			// SIGKILL at the hard limit that arrives); our own wall-clock kill was handled above
+			pr.hung = true
+			return pr
+		}
+	}
 	pr.crashed = true
 	full := out.String()
-	var ee *exec.ExitError
 	switch {
 	case strings.Contains(full, "stack overflow") || strings.Contains(full, "goroutine stack exceeds"):
 		pr.crashKind = "stack-overflow"
@@ -367,9 +382,9 @@ func (w *limitedWriter) Write(p []byte) (int, error) {
 
 // runPoint runs one point; a timeout counts as a hang only if it reproduces with a doubled horizon.
 func runPoint(s seriesT, n string) pointResult {
-	pr := runWorkerOnce(s, n, horizon)
-	if pr.hung {
-		pr2 := runWorkerOnce(s, n, 2*horizon)
+	pr := runWorkerOnce(s, n, horizonCPU)
+	if pr.hung || pr.starved {
+		pr2 := runWorkerOnce(s, n, 2*horizonCPU)
 		pr2.wall += pr.wall
 		return pr2
 	}
@@ -420,6 +435,10 @@ func judgePoint(c *vfw.Ctx, s seriesT, n string, pr pointResult) {
 		}
 		if w.Alloc > 64*uint64(w.Len)+allocSlack {
 			c.Add("points_over_linear_alloc_budget", 1)
+			if s.Family != "sizehint" {
+				// informational: super-linear but polynomial allocation (allowed by the property)
+				overLinear.Store(fmt.Sprintf("%s/%s/%s", s.Family, s.Variant, s.Mode), fmt.Sprintf("n=%s len=%d alloc=%d", n, w.Len, w.Alloc))
+			}
 		}
 		if w.Alloc > allocBound(w.Len) {
 			c.Violate(allocKey(s), fmt.Sprintf("family %s/%s mode=%s n=%s (input of %d bytes): %s allocated %d bytes (%d mallocs) > allocation bound %d",
@@ -432,10 +451,15 @@ func judgePoint(c *vfw.Ctx, s seriesT, n string, pr pointResult) {
 			}
 		}
 	}
+	if pr.starved {
+		c.Outcome("family:" + s.Family + ":starved")
+		c.Incomplete(fmt.Sprintf("worker %s/%s/%s n=%s hit the wall-clock cap (%d s) twice without using its CPU-time horizon: machine overloaded, no verdict for this point", s.Family, s.Variant, s.Mode, n, 2*horizonCPU*wallCapMult))
+		return
+	}
 	if pr.hung {
 		c.Case(true)
 		c.Outcome("family:" + s.Family + ":hang")
-		c.Violate("hang:"+s.Family, fmt.Sprintf("family %s/%s mode=%s n=%s: %s did not return within %v (second attempt, doubled horizon)", s.Family, s.Variant, s.Mode, n, pr.during, 2*horizon), replayOf(s, n))
+		c.Violate("hang:"+s.Family, fmt.Sprintf("family %s/%s mode=%s n=%s: %s did not return within %d s of CPU time (second attempt, doubled horizon)", s.Family, s.Variant, s.Mode, n, pr.during, 2*horizonCPU), replayOf(s, n))
 		return
 	}
 	if pr.crashed {
@@ -454,7 +478,7 @@ func judgePoint(c *vfw.Ctx, s seriesT, n string, pr pointResult) {
 // judgeGrowth compares two consecutive points of a scaling series: the work proxies may grow
 // at most quadratically (times a slack of 4).
 func judgeGrowth(c *vfw.Ctx, s seriesT, n0, n1 string, a, b pointResult) {
-	if a.crashed || b.crashed || a.hung || b.hung {
+	if a.crashed || b.crashed || a.hung || b.hung || a.starved || b.starved {
 		return
 	}
 	f0, _ := strconv.ParseFloat(n0, 64)
@@ -489,7 +513,7 @@ func runSeries(c *vfw.Ctx, s seriesT, growthLog *[]map[string]any, mu *sync.Mute
 		pr := runPoint(s, n)
 		judgePoint(c, s, n, pr)
 		c.Add("worker_processes", 1)
-		fmt.Printf("c14 point %s/%s/%s n=%s wall=%.2fs crashed=%v(%s) hung=%v results=%d\n", s.Family, s.Variant, s.Mode, n, pr.wall.Seconds(), pr.crashed, pr.crashKind, pr.hung, len(pr.results))
+		fmt.Printf("c14 point %s/%s/%s n=%s wall=%.2fs crashed=%v(%s) hung=%v starved=%v results=%d\n", s.Family, s.Variant, s.Mode, n, pr.wall.Seconds(), pr.crashed, pr.crashKind, pr.hung, pr.starved, len(pr.results))
 		if s.Scaling {
 			if prevN != "" {
 				judgeGrowth(c, s, prevN, n, prev, pr)
@@ -575,6 +599,12 @@ func runFamilies(c *vfw.Ctx, cc *colConv) {
 	close(ch)
 	wg.Wait()
 	c.Set("max_worker_alloc_bytes", maxWorkerAlloc.Load())
+	var ol []string
+	overLinear.Range(func(k, v any) bool { ol = append(ol, k.(string)+": "+v.(string)); return true })
+	if len(ol) > 0 {
+		sort.Strings(ol)
+		c.Set(fmt.Sprintf("superlinear_alloc_within_quadratic_lane%d", c.Shard), ol)
+	}
 	if c.Shard == 0 && len(growthLog) > 0 {
 		if len(growthLog) > 24 {
 			growthLog = growthLog[:24]
